@@ -4,7 +4,7 @@ TIER="${1:-quick}"
 cd "$(dirname "$0")/.."
 for p in $(python3 -c "import json; print(' '.join(c['property_id'] for c in json.load(open('MANIFEST.json'))['checks']))"); do
   s=$(date +%s)
-  ./check $p --tier $TIER > /tmp/all_$p.out 2>&1; rc=$?
+  ./check $p --tier $TIER > /tmp/all_${TIER}_$p.out 2>&1; rc=$?
   e=$(date +%s)
-  echo "$p rc=$rc $((e-s))s $(grep -c '^VIOLATION' /tmp/all_$p.out) viol $(grep -c '^HARNESS-PROBLEM' /tmp/all_$p.out) problems $(grep -c '^KNOWN-FINDING' /tmp/all_$p.out) known"
+  echo "$p rc=$rc $((e-s))s $(grep -c '^VIOLATION' /tmp/all_${TIER}_$p.out) viol $(grep -c '^HARNESS-PROBLEM' /tmp/all_${TIER}_$p.out) problems $(grep -c '^KNOWN-FINDING' /tmp/all_${TIER}_$p.out) known"
 done
